@@ -54,6 +54,9 @@ func extraSpecs() []*PropertySpec {
 		{ID: "C09", Rules: []string{"IS-HANDLER/IS-COMPLETE"}, Decided: "an installed snapshot's configuration is applied together with it"},
 		{ID: "C15", Rules: []string{"AE-BOUND"}, Decided: "what one AppendEntries request carries is bounded, so a member that is far behind is brought up to date in requests the transport accepts"},
 		{ID: "C09", Rules: []string{"LOOP-ALIAS"}, Decided: "the configurations restore() leaves in r.configuration and r.committedConfiguration are distinct objects per log entry (no pointer to a loop-carried variable is kept in node state)"},
+		{ID: "C01", Rules: []string{"COMPACT-KEEP"}, Decided: "the bundled log's LastIndex/LastTerm, which the vote restriction compares against, survive compaction"},
+		{ID: "C08", Rules: []string{"COMPACT-KEEP"}, Decided: "as C01: a vote is refused to a candidate whose log is behind also when the voter's log has just been compacted to its last entry"},
+		{ID: "C02", Rules: []string{"COMPACT-KEEP"}, Decided: "as C08"},
 		{ID: "C12", Rules: []string{"LOG-POSITION"}, Decided: "the log file is never in append mode and is positioned whenever a new descriptor is installed, so a record's Offset is where the record is"},
 		{ID: "C19", Rules: []string{"LOG-POSITION"}, Decided: "as C12: offsets read back from storage equal the positions written"},
 		{ID: "C06", Rules: []string{"LOG-POSITION"}, Decided: "Truncate cuts the persistent log where the in-memory log says"},
@@ -129,13 +132,13 @@ func extraSpecs() []*PropertySpec {
 			ID:         "C15",
 			Rules:      []string{"LEADER-APPEND", "AE-HANDLER", "SENDER", "IS-HANDLER"},
 			Decided:    "only necessary conditions of progress: a new leader appends a no-op of its term (so committedThisTerm can become true), every rejection carries the back-off hint and the leader uses it, the snapshot hand-shake advances only on Done at the expected offset and re-seeks otherwise, and the receiver of a snapshot never returns (or parks in a wait) after publishing the snapshot without having moved its boundary to the label (otherwise the re-sent tail restarts the transfer for ever)",
-			NotDecided: "any bound, any 'eventually': liveness under a timing assumption is not decidable statically (observations O2, O4, O6 in DESIGN.md are liveness defects out of static reach)",
+			NotDecided: "any bound, any 'eventually': that the cluster does make progress under a timing assumption is not decidable statically; decided are structural necessary conditions whose absence stops progress for ever (a wait without its predicate, a request the transport can never accept, a campaign that skips a voter)",
 		},
 		{
 			ID:         "C18",
 			Rules:      []string{"ENUM-SWITCH", "PANIC-SITES", "FATAL-IO", "WG-PARITY", "COND-PARITY", "FUT-NONBLOCK", "FUT-RESOLVE", "LOCK-PAIR"},
 			Decided:    "every switch over a module enum with a panicking default covers all declared constants; explicit panics only there; Fatal only on I/O errors; wait-group and condition-variable parity (every waiter is woken by Stop and re-tests Shutdown); respond never blocks, futures have capacity and a timeout arm; every future is answered or registered with a live responder; lock pairing, no double lock, no blocking send or wait-group wait under the mutex",
-			NotDecided: "implicit panics in general (nil/map/index), timeouts, invalid option values",
+			NotDecided: "implicit panics in general (nil/map/index) beyond the tabled sites; how long a call takes",
 		},
 		{
 			ID:         "C19",
